@@ -606,7 +606,11 @@ class ChargingNetwork(BaseSimObj):
         out_obj._EVSEs = evses
 
         if attribute_dict["constraint_matrix"] is not None:
-            out_obj.constraint_matrix = np.array(attribute_dict["constraint_matrix"])
+            # A matrix without rows (all constraints removed) is stored as an empty list;
+            # restore its number of columns.
+            out_obj.constraint_matrix = np.array(
+                attribute_dict["constraint_matrix"]
+            ).reshape((len(attribute_dict["constraint_index"]), len(evses)))
         else:
             out_obj.constraint_matrix = attribute_dict["constraint_matrix"]
         out_obj.magnitudes = np.array(attribute_dict["magnitudes"])
